@@ -131,7 +131,7 @@ def run(cx):
 
         def check_returncode(self):
             if self.returncode != 0:
-                raise dl.Raised("CalledProcessError", f"exit {self.returncode}")
+                raise dl.Raised("CalledProcessError", f"exit {self.returncode}", attrs={"returncode": self.returncode, "cmd": getattr(self, "args", None), "output": None, "stdout": None, "stderr": None})
 
     class _SysStub(dl.Synth):
         stderr = None
@@ -145,7 +145,7 @@ def run(cx):
             rc = statuses[i_] if i_ < len(statuses) else statuses[-1]      # a failing step keeps failing however often it is retried
             log.append((list(cmd) if isinstance(cmd, (list, tuple)) else cmd, kw_.get("cwd"), rc))
             if kw_.get("check") and rc != 0:
-                raise dl.Raised("CalledProcessError", f"exit {rc}")
+                raise dl.Raised("CalledProcessError", f"exit {rc}", attrs={"returncode": rc, "cmd": cmd, "output": None, "stdout": None, "stderr": None})
             d_ = _Done()
             d_.returncode, d_.stdout, d_.stderr, d_.args = rc, "", "", cmd
             return d_
@@ -169,20 +169,22 @@ def run(cx):
         return sub_
 
     fails = (1, 2, 255, -9, -2)
-    scen = [(0, 0)] + [(f_,) for f_ in fails] + [(0, f_) for f_ in fails]
+    scen = [(0, 0)] + [(f_,) for f_ in fails] + [(0, f_) for f_ in fails] + [(f_, 0, 0) for f_ in fails]
     for st in scen:
         log, opq = scripted(st)
         try:
             out = dl.Interp(mp, opaque=opq, extra_env={"sys": _SysStub(), "subprocess": _sub_for(opq)}).call(cu, ["/proj/dir"])
         except dl.Unsupported as e:
             raise AnalysisError(f"compile_upload left the evaluable subset: {e}")
-        tag = "ok" if st == (0, 0) else f"{'build' if len(st) == 1 else 'upload'}-exit[{st[-1]}]"
+        tag = "ok" if st == (0, 0) else f"{'build' if len(st) in (1, 3) else 'upload'}-exit[{st[-1] if len(st) != 3 else st[0]}]"
         argvs = [l_[0] for l_ in log]
         if st == (0, 0):
             r.check(out.kind == "return" and argvs == want, "compile_upload/exactly-two-runs-per-path", (mp, cu), f"with both steps succeeding compile_upload -> {out!r} after running {argvs}; expected exactly {want}")
             for i_, l_ in enumerate(log[:2]):
                 r.check(l_[0] == want[i_], f"compile_upload/argv[{i_}]", (mp, cu), f"tool invocation #{i_ + 1} is {l_[0]!r}, expected {want[i_]!r}")
                 r.check(l_[1] == "/proj/dir", f"compile_upload/cwd[{i_}]", (mp, cu), f"pio step #{i_ + 1} runs with cwd={l_[1]!r}: it must run in the project directory")
+        elif len(st) == 3:
+            r.check(out.kind == "raise" and len(log) == 1, f"compile_upload/failed-build-stops-although-upload-would-succeed[{st[0]}]", (mp, cu), f"the build step ends with status {st[0]} and every later step would succeed: compile_upload -> {out!r} after running {argvs}; a failed build must raise and never reach the upload step")
         elif len(st) == 1:
             r.check(out.kind == "raise" and len(log) == 1, f"compile_upload/failed-build-stops[{st[0]}]", (mp, cu), f"the build step ends with status {st[0]}: compile_upload -> {out!r} after running {argvs}; a failed build must raise and never reach the upload step")
         else:
